@@ -310,8 +310,8 @@ def _in(node, lst):
     return any(node is x for x in lst)
 
 
-def _atoms(test, pol, out):
-    """decompose a condition known to be ``pol`` into atomic (text, polarity) facts"""
+def _atoms(test, pol, out, nodes=False):
+    """decompose a condition known to be ``pol`` into atomic (text, polarity) facts (``nodes``: (ast node, polarity))"""
     from .core import norm
 
     while isinstance(test, ast.UnaryOp) and isinstance(test.op, ast.Not):
@@ -319,7 +319,7 @@ def _atoms(test, pol, out):
     if isinstance(test, ast.BoolOp):
         if isinstance(test.op, ast.And) and pol or isinstance(test.op, ast.Or) and not pol:
             for v in test.values:
-                _atoms(v, pol, out)
+                _atoms(v, pol, out, nodes)
             return
     if isinstance(test, ast.Compare) and len(test.ops) == 1:
         flip = {ast.NotEq: ast.Eq, ast.IsNot: ast.Is, ast.NotIn: ast.In}
@@ -328,17 +328,58 @@ def _atoms(test, pol, out):
                 test = ast.Compare(left=test.left, ops=[posop()], comparators=test.comparators)
                 pol = not pol
                 break
-    out.add((norm(test), pol))
+    if nodes:
+        out.append((test, pol))
+    else:
+        out.add((norm(test), pol))
 
 
-def implied_conditions(g: "CFG", node):
+def implied_atoms(g: "CFG", node):
+    """as implied_conditions, but the atoms are returned as (ast expression, polarity) so that callers can fold constants"""
+    return implied_conditions(g, node, nodes=True)
+
+
+def upper_bound(atoms, var, fold):
+    """largest integer value of the expression spelled ``var`` that the atomic facts admit (None when unbounded)"""
+    from .core import norm
+
+    best = None
+    for t, pol in atoms:
+        if not (isinstance(t, ast.Compare) and len(t.ops) == 1):
+            continue
+        a, op, b = t.left, t.ops[0], t.comparators[0]
+        if norm(b) == var:  # K > x  ==  x < K
+            swap = {ast.Lt: ast.Gt, ast.LtE: ast.GtE, ast.Gt: ast.Lt, ast.GtE: ast.LtE}
+            if type(op) not in swap:
+                continue
+            a, op, b = b, swap[type(op)](), a
+        if norm(a) != var:
+            continue
+        k = fold(b)
+        if not isinstance(k, int):
+            continue
+        hi = None
+        if pol and isinstance(op, ast.Lt):
+            hi = k - 1
+        elif pol and isinstance(op, ast.LtE):
+            hi = k
+        elif not pol and isinstance(op, ast.GtE):
+            hi = k - 1
+        elif not pol and isinstance(op, ast.Gt):
+            hi = k
+        if hi is not None:
+            best = hi if best is None else min(best, hi)
+    return best
+
+
+def implied_conditions(g: "CFG", node, nodes=False):
     """Atomic conditions that hold on EVERY path from the entry to ``node`` (an ast statement or expression inside one),
     derived from the if statements that dominate it: an arm that cannot reach the node (because it always returns /
     raises / continues) makes the opposite polarity hold.  `if a and b:` true contributes a and b; `if a or b:` false
     contributes not a and not b; `!=`/`is not`/`not in`/`not` are normalised.  Restructuring between nested ifs, guard
     clauses and early returns does not change the result."""
     nid = g.id_of(node)
-    out = set()
+    out = [] if nodes else set()
     if nid is None:
         return out
     for i, st in g.stmt.items():
@@ -375,7 +416,33 @@ def implied_conditions(g: "CFG", node):
         else:
             rf = any(s == nid or g.paths_avoiding(s, nid, {i}) for s in g.succ[i] if s != t_entry)
         if rt and not rf:
-            _atoms(st.test, True, out)
+            _atoms(st.test, True, out, nodes)
         elif rf and not rt:
-            _atoms(st.test, False, out)
+            _atoms(st.test, False, out, nodes)
     return out
+
+
+def flag_state(atoms, flag):
+    """From atomic facts, whether the bit named ``flag`` is known set (True) or clear (False) in an `x & flag` test:
+    `x & F` / `(x & F) != 0` / `(x & F) == F` true  -> set;  `(x & F) == 0` true or `x & F` false -> clear."""
+    import re
+
+    for text, pol in atoms:
+        if flag not in text or "&" not in text:
+            continue
+        t = text.replace("(", "").replace(")", "")
+        m = re.fullmatch(r"(.+) & (\w+)( == (\w+))?", t)
+        if not m:
+            m2 = re.fullmatch(r"(\w+) & (.+?)( == (\w+))?", t)
+            if not m2 or m2.group(1) != flag:
+                continue
+            rhs = m2.group(4)
+        else:
+            if m.group(2) != flag:
+                continue
+            rhs = m.group(4)
+        if rhs is None or rhs == flag:
+            return pol
+        if rhs == "0":
+            return not pol
+    return None
